@@ -189,25 +189,25 @@ impl Report {
         let mut lines = Vec::new();
         let replay_dir = root.join("replays").join(self.id);
         for (key, v) in &self.violations {
+            let _ = std::fs::create_dir_all(&replay_dir);
+            let fname = format!("{}.json", sanitise(key));
+            let path = replay_dir.join(fname);
+            let doc = J::obj()
+                .set("property", self.id)
+                .set("key", key)
+                .set("what", &v.what)
+                .set("count_this_run", v.count)
+                .set("tier", self.tier.name())
+                .set("case", v.replay.clone());
+            let _ = std::fs::write(&path, doc.to_string_pretty());
             if let Some(desc) = known.lookup(self.id, key) {
                 known_hits.push(J::obj().set("key", key).set("count", v.count));
                 lines.push(format!(
-                    "KNOWN-FINDING: property={} key={} {} [{} case(s) this run; listed: {}]",
-                    self.id, key, v.what, v.count, desc
+                    "KNOWN-FINDING: property={} key={} {} [{} case(s) this run; replay={}; listed: {}]",
+                    self.id, key, v.what, v.count, path.display(), desc
                 ));
             } else {
                 alarms += 1;
-                let _ = std::fs::create_dir_all(&replay_dir);
-                let fname = format!("{}.json", sanitise(key));
-                let path = replay_dir.join(fname);
-                let doc = J::obj()
-                    .set("property", self.id)
-                    .set("key", key)
-                    .set("what", &v.what)
-                    .set("count_this_run", v.count)
-                    .set("tier", self.tier.name())
-                    .set("case", v.replay.clone());
-                let _ = std::fs::write(&path, doc.to_string_pretty());
                 lines.push(format!("  {} ({} case(s)): {}", key, v.count, v.what));
                 lines.push(format!(
                     "VIOLATION property={} replay={}",
